@@ -11,14 +11,21 @@
 (* mutated bytes); the only allowed outcomes are "value" and "error", and  *)
 (* the memory allocated during the call is bounded by a constant plus a    *)
 (* multiple of the input size:                                             *)
-(*        alloc_kib <= C0KiB + C1KiB * inlen                               *)
+(*        alloc_kib <= C0(entry) + C1KiB * inlen                           *)
+(* where the constant part depends on the entry point only (container      *)
+(* readers may buffer one CAR section up to the 32 MiB cap).               *)
 (* There is no action for "panic" or "timeout": a trace containing one is  *)
 (* rejected.                                                               *)
 (***************************************************************************)
 EXTENDS Integers, Sequences, TLC, Json
 
-CONSTANTS C0KiB,     \* constant part, KiB (covers the 32 MiB CAR section cap and decoder budgets)
-          C1KiB      \* KiB allocated per input byte (TLC integers are 32-bit: everything is kept in KiB)
+CONSTANTS C0KiB,           \* constant part, KiB, of every entry point but the container readers
+          C0ContainerKiB,  \* constant part of the container readers (covers the 32 MiB CAR section cap)
+          C1KiB            \* KiB allocated per input byte (TLC integers are 32-bit: everything is kept in KiB)
+
+ContainerEntries == {"container.FromCar", "container.FromCbor", "container.FromCarBase64", "container.FromCborBase64Reader",
+                     "container.FromCarReader", "container.FromCborReader", "container.FromCarBase64Reader", "container.FromCborBase64"}
+C0(e) == IF e.entry \in ContainerEntries THEN C0ContainerKiB ELSE C0KiB
 
 Trace == ndJsonDeserialize("trace.ndjson")
 VARIABLE l
@@ -26,7 +33,7 @@ TraceInit == l = 1
 Allowed(e) ==
   /\ e.ev = "Call"
   /\ e.outcome \in {"value", "error"}
-  /\ e.alloc_kib <= C0KiB + C1KiB * e.inlen
+  /\ e.alloc_kib <= C0(e) + C1KiB * e.inlen
 TraceNext == l <= Len(Trace) /\ Allowed(Trace[l]) /\ l' = l + 1
 TraceSpec == TraceInit /\ [][TraceNext]_l
 TraceAccepted ==
